@@ -258,3 +258,14 @@ def main_chain(block):
             if best is None or len(ch) > len(best):
                 best = ch
     return best
+
+
+def flip_negated_tail(chain, recognised):
+    """`if not T: A else: B` is `if T: B else: A`: when the last tested member of a chain is the negation of a test the rule recognises
+    (recognised(test) true) and an else-branch follows, return the chain with that member flipped; otherwise the chain unchanged."""
+    if len(chain) >= 2 and chain[-1][0] is None and chain[-2][0] is not None:
+        t = chain[-2][0]
+        nt = negate(t)
+        if not recognised(t) and recognised(nt):
+            return chain[:-2] + [(ast.fix_missing_locations(ast.copy_location(nt, t)), chain[-1][1]), (None, chain[-2][1])]
+    return chain
